@@ -46,3 +46,34 @@ func (d *Dialer) Dial(network, address string) (net.Conn, error) {
 	}
 	return (&net.Dialer{Timeout: d.Timeout, KeepAlive: d.KeepAlive}).Dial(network, address)
 }
+
+// TimeScale > 1 makes the timing wrappers below run that much faster than
+// asked. It is for loops in code under test whose period is a constant
+// (the gRPC pool's 5 s clean-up) when the harness cannot own their ticks:
+// the wrappers cover Sleep, NewTicker, Tick, After, NewTimer and AfterFunc so
+// that it does not matter which primitive the loop uses.
+var TimeScale int64 = 1
+
+func scaled(d time.Duration) time.Duration {
+	if TimeScale > 1 && d > 0 {
+		d = d / time.Duration(TimeScale)
+		if d <= 0 {
+			d = time.Microsecond
+		}
+	}
+	return d
+}
+
+// ScaledSleep: the harness-owned hook if set, else a scaled real sleep.
+func ScaledSleep(d time.Duration) {
+	if SleepHook != nil {
+		SleepHook(d)
+		return
+	}
+	time.Sleep(scaled(d))
+}
+func NewTicker(d time.Duration) *time.Ticker          { return time.NewTicker(scaled(d)) }
+func Tick(d time.Duration) <-chan time.Time           { return time.Tick(scaled(d)) }
+func After(d time.Duration) <-chan time.Time          { return time.After(scaled(d)) }
+func NewTimer(d time.Duration) *time.Timer            { return time.NewTimer(scaled(d)) }
+func AfterFunc(d time.Duration, f func()) *time.Timer { return time.AfterFunc(scaled(d), f) }
